@@ -9,6 +9,9 @@ import numpy as np
 
 from harness import circgen as cg, oracle_net as on, cell_corr
 from harness import circuit_view_corr as vc
+from harness import subst_sem_corr as ssc
+
+SNAPS = []      # substitute cases for the per-case tie of the theorems C10_substitute_* (harness/subst_sem_corr.py)
 
 # copy / pickle / eliminate_1to1_forks over the edit model Model/Circuit.v (substitute / resolve: differential testing below)
 THEOREMS = ['C10_view_wf', 'C10_history_view_wf',
@@ -18,6 +21,16 @@ THEOREMS = ['C10_view_wf', 'C10_history_view_wf',
             'C10_sem_lut_buf',
             'C10_eliminate_s_names', 'C10_eliminate_s_names_perm', 'C10_eliminate_state_order_refuted',
             'C10_eliminate_order_kept', 'C10_state_first_b_sound', 'C10_order_kept_example', 'C10_example_solution']
+# substitute on arbitrary implementations (Properties/C10.v section 6; Proofs/CircuitSubstGlue.v: structure for all inputs,
+# CircuitSubstSem[Gen].v: semantics from the structure, CircuitDanglingSem.v: clean-up, CircuitSubstMain.v: assembly,
+# CircuitSubstCheck.v: per-case decision procedure, CircuitSubstExample.v / CircuitSubstWitness.v: non-vacuity and D22 / D21 / D29)
+THEOREMS_SUBST = ['C10_substitute_split', 'C10_substitute_pre_glue', 'C10_pure_ports_b_sound', 'C10_subst_glue_b_sound',
+                  'C10_glue_function', 'C10_substitute_pre_function', 'C10_substitute_function',
+                  'C10_remove_dangling_function', 'C10_cleanup_function', 'C10_substitute_function_full', 'C10_subst_full_unfold',
+                  'C10_substitute_pre_function_checked', 'C10_substitute_example', 'C10_substitute_example_pure',
+                  'C10_substitute_d22_refuted', 'C10_substitute_d21_refuted', 'C10_substitute_state_order_refuted',
+                  'C10_substitute_pure_ports_needed']
+THEOREMS = THEOREMS + THEOREMS_SUBST
 # library clause (Properties/C10Lib.v): every cell definition of the five libraries x {all pins connected (every name), every
 # single pin unconnected (first name), no output connected (every name)}; exceptions = known findings D15 / D21 / D22, each
 # with a *_refuted theorem
@@ -294,10 +307,13 @@ def substitute_random(rng):
         desc['permuted'] = True
     desc['host'] = cg.describe(host)
     before, before_k = s_names(host), s_keys(host)
+    snap = ssc.snapshot(host, u, impl)
     try:
         host.substitute(u, impl)
     except Exception as e:
         return desc, f'substitute raises {type(e).__name__}: {e}'
+    snap['desc'] = desc
+    SNAPS.append(ssc.finish(snap, host))
     reordered = None
     if before != s_names(host):
         nio, after_k = len(host.io_nodes), s_keys(host)
@@ -400,6 +416,56 @@ def ce_describe(op):
     return ce.describe(op)
 
 
+def substitute_sem_correspondence(ck, rng):
+    """per-case tie of the theorems C10_substitute_*: the compared substitute cases (the truth-table stream above and a second stream
+    with state elements / uneliminated forks / feedback through the host) as tables; Coq rebuilds both circuits, runs the model,
+    compares the result with the real Circuit, evaluates every hypothesis checker and the glue relation (harness/subst_sem_corr.py)"""
+    snaps = list(SNAPS)
+    n_tt = len(snaps)
+    for i in range(ck.scale(120, 1500)):
+        s = ssc.sem_case(rng)
+        if s is not None:
+            snaps.append(s)
+    del SNAPS[:]
+    n_allout = sum(1 for s in snaps if s['flags'][1])
+    n_allin = sum(1 for s in snaps if s['flags'][0] and s['flags'][1])
+    n_d22 = sum(1 for s in snaps if not s['flags'][2])
+    n_thm = sum(1 for s in snaps if s['flags'][1] and s['flags'][2])
+    for s in snaps:
+        ck.count(1, 'substitute-sem:' + ('all-outputs' if s['flags'][1] else 'unconnected-output'))
+        ck.nontrivial(('ss', s['desc'].get('impl'), str(s['desc'].get('connected'))))
+    size = 40
+    parts = [list(range(k, min(k + size, len(snaps)))) for k in range(0, len(snaps), size)]
+    outs = ck.coq_eval_many('substsem', [ssc.cases_file([snaps[i] for i in part]) for part in parts], jobs=10, timeout=1200)
+    bad, ran = [], True
+    for part, (ok, out) in zip(parts, outs):
+        pairs = ssc.parse_pairs(out) if ok else None
+        if pairs is None:
+            ran = False
+            bad.append(('coq', out[-300:]))
+            continue
+        bad += [(part[ci], k) for ci, k in pairs]
+    ck.obligation(f'substitute, semantic theorems: on {len(snaps)} compared substitute cases ({n_tt} of the truth-table stream, {len(snaps) - n_tt} with state '
+                  f'elements / uneliminated forks / feedback) the model substitute_pre + cleanup = substitute = the real Circuit after '
+                  f'Circuit.substitute (nodes, lines, io_nodes), every hypothesis checker of C10_substitute_function_full holds (cinv_b, io_ok_b, '
+                  f'subst_shape_b, pure_ports_b, instance is a cell and no port), the glue relation subst_glue_b holds on the state before the clean-up '
+                  f'(the per-case route C10_substitute_pre_function_checked), the nodes collected for the clean-up are listed, and the connectivity / D22 '
+                  f'flags computed from the live objects equal all_ins_connected_b / all_outs_connected_b / d22_free_b; C10_substitute_function_full '
+                  f'applies to {len(snaps) - n_d22} cases ({n_thm} with all outputs connected = C10_substitute_function, {n_allin} of them with all inputs '
+                  f'connected; {len(snaps) - n_allout} cases with an unconnected output, i.e. with clean-up), {n_d22} cases fall under D22 (d22_free_b false)',
+                  ran and not bad and n_thm > 0, 'correspondence', f'failing (case, item): {bad[:6]}')
+    first = [b for b in bad if b[0] != 'coq'][:3]
+    for ci, k in first:
+        s = snaps[ci]
+        ck.fail('substitute-sem:' + str(k), f'substitute case {ci}: {ssc.CODES.get(k, k)} ({s["desc"].get("impl")}, connected {s["desc"].get("connected")})',
+                {'component': 'Circuit.substitute vs Model/CircuitSubstSem.v', 'input': {'kind': 'substitute-sem', 'host': s['host'], 'u': s['u'], 'impl': s['impl'],
+                                                                                     'desc': {k2: v for k2, v in s['desc'].items() if k2 != 'host'}},
+                 'actual': ssc.CODES.get(k, str(k))})
+    if bad and not first:
+        ck.fail('substitute-sem:coq', 'the substitute cases did not evaluate', {'component': 'Model/CircuitSubstSem.v', 'input': {}, 'actual': str(bad[0][1])},
+                found_input=False)
+
+
 def run(ck):
     from kyupy import techlib
     if THEOREMS:
@@ -442,6 +508,7 @@ def run(ck):
             ck.nontrivial(('r', lib, impl.name))
             if what:
                 fails.append((f'resolve:{lib}:{kind}:{desc.get("class", "function" if "raises" not in what else "raises")}', desc, what))
+    substitute_sem_correspondence(ck, rng)
     unknown = [f for f in fails if ck.known_entry(f[0]) is None]
     ck.obligation('copy / pickle / eliminate_1to1_forks / substitute / resolve_tlib_cells preserve names, order and Boolean function on every '
                   'generated circuit and for every library cell definition (listed known findings excepted)', not unknown, 'correspondence',
@@ -458,9 +525,12 @@ def run(ck):
              'in C09) and its netlist view Model/CircuitView.v, which is tied to the real Circuit (circgen.coq_netlist, s_nodes names and '
              'indices) by the view correspondence above; the id-based semantics csol / ciface of Model/CircuitSem.v are derived notions, proved '
              'equivalent to NetlistSem.solution / iface_pos on the view (C10_csol_iff_solution, C10_solution_iff_csol), which C01 ties to LogicSim',
-             'substitute / resolve_tlib_cells: no theorem of this file; decided by comparing LogicSim truth tables and s_nodes names/order '
-             'before and after each transformation, with the expected function of a library instance taken from an independent evaluation '
-             'of its implementation circuit; the truth-table comparison is also kept for copy / pickle / eliminate')
+             'substitute: theorems C10_substitute_* over the same transcription for ARBITRARY implementations (structure of the result for all '
+             'inputs, solutions of the result = valuations of the host with the instance read as the implementation, clean-up included; '
+             'hypothesis checkers and the model result tied to the real Circuit.substitute on every compared case by harness/subst_sem_corr.py); '
+             'resolve_tlib_cells (the loop over instances) and the position-based s_nodes order: decided by comparing LogicSim truth tables and '
+             's_nodes names/order before and after each transformation, with the expected function of a library instance taken from an '
+             'independent evaluation of its implementation circuit; the truth-table comparison is also kept for copy / pickle / eliminate / substitute')
     for key, desc, what in fails[:40]:
         ck.fail(key, what, {'component': 'circuit.Circuit transformations', 'input': desc, 'actual': what})
 
@@ -485,6 +555,8 @@ def replay(rp):
         core.Check._cleanup_case(path)
         pairs = vc.parse_pairs(out) if ok else None
         return pairs is None or bool(pairs)
+    if inp.get('kind') == 'substitute-sem':
+        return ssc.replay_case(inp)
     if inp.get('kind') == 'resolve':
         rng = random.Random(0)
         d, what = resolve_cell(inp['library'], getattr(techlib, inp['library']), inp['cell'], rng)
